@@ -45,6 +45,12 @@ pub enum TxT {
 	/// (protocol-2 input form) one input listed a second time under the OTHER feature byte: two distinct
 	/// entries for one commitment, so the input side of the balance counts it twice
 	InputTwiceUnderOtherFeatures,
+	/// the same, but the transaction is BUILT for the doubled input: one output is worth that much more and
+	/// the excess subtracts the input's blinding factor twice, so every sum balances — one coin spent, twice
+	/// its value paid out. Only the rule that no commitment occurs twice in a body can refuse it.
+	InputTwiceUnderOtherFeaturesRebalanced,
+	/// as above with the second listing under the SAME features (a plain duplicate entry)
+	InputTwiceRebalanced,
 }
 
 pub fn tx_catalogue() -> Vec<TxT> {
@@ -78,6 +84,8 @@ pub fn tx_catalogue() -> Vec<TxT> {
 		DropOutput,
 		DropInput,
 		InputTwiceUnderOtherFeatures,
+		InputTwiceUnderOtherFeaturesRebalanced,
+		InputTwiceRebalanced,
 	]
 }
 
@@ -319,6 +327,27 @@ pub fn tamper_tx(spec: &TxSpec, t: TxT, pick: usize) -> Option<(Transaction, boo
 			let c = is[i].commitment();
 			is.push(Input::new(other, c));
 			Some((rebuild(&tx, is, tx.outputs().to_vec(), tx.kernels().to_vec()), false))
+		}
+		InputTwiceUnderOtherFeaturesRebalanced | InputTwiceRebalanced => {
+			if spec.inputs.is_empty() || spec.outputs.is_empty() {
+				return None;
+			}
+			let mut s = spec.clone();
+			let dup = s.inputs[pick % s.inputs.len()];
+			s.inputs.push(dup);
+			s.outputs[oi].amount = s.outputs[oi].amount.checked_add(dup.amount)?;
+			if s.outputs.iter().filter(|o| **o == s.outputs[oi]).count() > 1 || s.inputs.contains(&s.outputs[oi]) {
+				return None;
+			}
+			// balanced in value and in blinding factors; TransactionBody::init is not asked to verify anything
+			let (tx2, _) = assemble(&s);
+			let mut is = inputs_of(&tx2);
+			let c = LIB.commit(&dup);
+			let i = is.iter().position(|x| x.commitment() == c)?;
+			if t == InputTwiceUnderOtherFeaturesRebalanced {
+				is[i] = Input::new(if dup.cb { OutputFeatures::Plain } else { OutputFeatures::Coinbase }, c);
+			}
+			Some((rebuild(&tx2, is, tx2.outputs().to_vec(), tx2.kernels().to_vec()), false))
 		}
 	}
 }
@@ -610,7 +639,7 @@ pub fn tampered_block(
 			}
 			let i = pick % specs.len();
 			let tt = tx_catalogue()[ci as usize];
-			if tt == TxT::InputTwiceUnderOtherFeatures {
+			if matches!(tt, TxT::InputTwiceUnderOtherFeatures | TxT::InputTwiceUnderOtherFeaturesRebalanced | TxT::InputTwiceRebalanced) {
 				// a block is assembled with commitment-only inputs here: the pair would collapse into a plain duplicate
 				return Ok(None);
 			}
